@@ -348,5 +348,102 @@ func runGuard(c *core.Ctx) []core.Obligation {
 			}
 		}
 	}
+	obs = append(obs, findVertexIndex(c))
 	return obs
+}
+
+// findVertexIndex (after round-7 seed C07-r7m1, the two endpoint tests of an indexed edge merged into one `||`
+// that returns the edge's first index for either match): findVertex(p) promises an index k with Vertex(k) == p; the
+// callers run their wedge tests at Vertex(k-1), Vertex(k), Vertex(k+1). Every `return k, true` must therefore lie
+// behind the successful comparison of Vertex(k) - the same k - with p (the wrap-around `return len(vertices), true`
+// stands for index 0 and is behind Vertex(ai) == p with ai == 0).
+func findVertexIndex(c *core.Ctx) core.Obligation {
+	const construct = "Loop.findVertex:returned-index-is-the-matched-vertex"
+	fn := c.Fn("s2", "Loop", "findVertex")
+	if fn == nil {
+		return core.Ob("R-GUARD", construct, "-", "", core.Violated, "unresolved anchor")
+	}
+	var same func(a, b ssa.Value, d int) bool
+	same = func(a, b ssa.Value, d int) bool {
+		if a == b {
+			return true
+		}
+		if d > 4 {
+			return false
+		}
+		if ka, ok := a.(*ssa.Const); ok {
+			kb, ok := b.(*ssa.Const)
+			return ok && ka.Value != nil && kb.Value != nil && ka.Value.String() == kb.Value.String()
+		}
+		ba, ok1 := a.(*ssa.BinOp)
+		bb, ok2 := b.(*ssa.BinOp)
+		if ok1 && ok2 && ba.Op == bb.Op {
+			return same(ba.X, bb.X, d+1) && same(ba.Y, bb.Y, d+1)
+		}
+		return false
+	}
+	// the comparisons Vertex(k) == p
+	type match struct {
+		e core.Edge
+		k ssa.Value
+	}
+	var matches []match
+	for _, b := range fn.Blocks {
+		ifi, ok := b.Instrs[len(b.Instrs)-1].(*ssa.If)
+		if !ok {
+			continue
+		}
+		bo, ok := ifi.Cond.(*ssa.BinOp)
+		if !ok || (bo.Op != token.EQL && bo.Op != token.NEQ) {
+			continue
+		}
+		for _, side := range []ssa.Value{bo.X, bo.Y} {
+			call, ok := side.(*ssa.Call)
+			if ok && core.StaticCallee(call) != nil && core.StaticCallee(call).Name() == "Vertex" && len(call.Call.Args) == 2 {
+				idx := 0
+				if bo.Op == token.NEQ {
+					idx = 1
+				}
+				matches = append(matches, match{core.Edge{From: b, Idx: idx}, call.Call.Args[1]})
+			}
+		}
+	}
+	nret, bad := 0, ""
+	for _, b := range fn.Blocks {
+		ret, ok := b.Instrs[len(b.Instrs)-1].(*ssa.Return)
+		if !ok || len(ret.Results) != 2 {
+			continue
+		}
+		if k, ok := ret.Results[1].(*ssa.Const); !ok || k.Value == nil || k.Value.String() != "true" {
+			continue
+		}
+		nret++
+		idx := ret.Results[0]
+		wrap := false
+		if call, ok := idx.(*ssa.Call); ok {
+			if bi, ok := call.Call.Value.(*ssa.Builtin); ok && bi.Name() == "len" {
+				wrap = true
+			}
+		}
+		okRet := false
+		for _, m := range matches {
+			if !core.EdgeDominates(m.e, b) {
+				continue
+			}
+			if wrap || same(m.k, idx, 0) {
+				okRet = true
+			}
+		}
+		if !okRet && bad == "" {
+			bad = c.Pos(ret.Pos())
+		}
+	}
+	switch {
+	case nret < 2 || len(matches) < 2:
+		return core.Ob("R-GUARD", construct, c.Pos(fn.Pos()), core.FuncName(fn), core.Violated, fmt.Sprintf("unresolved anchor: %d successful returns and %d vertex comparisons found", nret, len(matches)))
+	case bad != "":
+		return core.Ob("R-GUARD", construct, bad, core.FuncName(fn), core.Violated,
+			"the index returned at "+bad+" is not the index whose vertex was found equal to p on every path to that return: the callers (ContainsNested, containsNonCrossingBoundary) then run their wedge test at a neighbouring vertex, so a hole that touches its shell at that vertex is classified as not nested and polygon Contains/Intersects give the wrong answer")
+	}
+	return core.Ob("R-GUARD", construct, c.Pos(fn.Pos()), core.FuncName(fn), core.Discharged, fmt.Sprintf("%d successful returns, each behind Vertex(k) == p for the k it returns", nret))
 }
